@@ -11,7 +11,7 @@
     sp = true: with spurious condition-variable wake-ups. *)
 From Coq Require Import List Arith.
 From TLXV Require Import C10.Pool C10.PoolLemmas C10.PoolSafety C10.PoolWait C10.PoolCands C10.PoolLive C10.PoolLive2 C10.PoolLive3
-  C10.PoolLive4 C10.PoolExamples.
+  C10.PoolLive4 C10.PoolQueue C10.PoolExamples.
 Import ListNotations.
 
 (** Safety (holds for both code variants, with spurious wake-ups): no enqueue instance ("ticket") is
@@ -52,24 +52,34 @@ Theorem C10_no_lost_wakeup_loop_until_terminate : forall cfg s u,
 Proof. exact no_lost_wakeup_lt. Qed.
 Print Assumptions C10_no_lost_wakeup_loop_until_terminate.
 
-(** ... no job is running, and as long as the pool is not terminated the queue is empty and NO thread is left
-    in loop_until_empty: every waiter for emptiness returns once the jobs have finished (no deadlock); *)
+(** ... if no job body is blocked in a rendezvous ([JWait]: a job may block until another job's body has ended;
+    [no_blocked_job] = "the running jobs finish"): no job is running, and as long as the pool is not terminated the
+    queue is empty and NO thread is left in loop_until_empty: every waiter for emptiness returns (no deadlock); *)
 Theorem C10_quiescent_unterminated : forall cfg s,
-  1 <= nworkers cfg -> reachable cfg false s -> quiescent cfg true false s -> term (shr s) = false ->
+  1 <= nworkers cfg -> reachable cfg false s -> quiescent cfg true false s -> no_blocked_job s -> term (shr s) = false ->
   queue (shr s) = [] /\ busy (shr s) = 0 /\ forall u, waits_le (get (thr s) u) = false.
 Proof. exact quiescent_unterminated. Qed.
 Print Assumptions C10_quiescent_unterminated.
 
-(** ... no worker is idle (blocked in cv_jobs_.wait) while the pool is terminated or a job is queued; *)
+(** ... no worker is idle (blocked in cv_jobs_.wait) while the pool is terminated or a job is queued -- whatever the
+    job bodies do, including bodies that block until another job has ended.  The queue part is the counting
+    invariant of C10/PoolQueue.v: while a worker sleeps, #queued + #sleeping <= #workers in the loop + #threads
+    between push and notify_one; it needs the notify_one on EVERY enqueue. *)
+Theorem C10_no_queued_job_with_idle_worker : forall cfg s u,
+  reachable cfg false s -> quiescent cfg true false s -> waits_job (get (thr s) u) = true -> term (shr s) = false ->
+  queue (shr s) = [].
+Proof. exact no_queued_job_with_idle_worker. Qed.
+Print Assumptions C10_no_queued_job_with_idle_worker.
+
 Theorem C10_no_stranded_idle_worker : forall cfg s u,
   reachable cfg false s -> quiescent cfg true false s -> waits_job (get (thr s) u) = true ->
   term (shr s) = false /\ queue (shr s) = [].
 Proof. exact no_stranded_idle_worker. Qed.
 Print Assumptions C10_no_stranded_idle_worker.
 
-(** ... and the destructor is not blocked in a join (pool sizes >= 1). *)
+(** ... and the destructor is not blocked in a join once the running jobs finish (pool sizes >= 1). *)
 Theorem C10_destructor_not_stuck : forall cfg s u,
-  1 <= nworkers cfg -> reachable cfg false s -> quiescent cfg true false s -> in_dtor_join (get (thr s) u) = false.
+  1 <= nworkers cfg -> reachable cfg false s -> quiescent cfg true false s -> no_blocked_job s -> in_dtor_join (get (thr s) u) = false.
 Proof. exact destructor_not_stuck. Qed.
 Print Assumptions C10_destructor_not_stuck.
 
